@@ -37,7 +37,7 @@ Record Inv (s : cstate) : Prop := {
   inv_requester : forall k, k < ncalls s -> owns s k -> latest_requester (cs_sent s) = Some k }.
 
 Definition op_call_index (o : cop) : nat :=
-  match o with OSend k _ _ _ | ORecv k | OSetCont k | ONext k => k end.
+  match o with OSend k _ _ _ | ORecv k | OSetCont k | ONext k | ODrop k => k end.
 
 Lemma nth_repeat_new k n : nth k (repeat new_call n) new_call = new_call.
 Proof. revert k. induction n as [|n IH]; intros [|k]; simpl; auto. Qed.
@@ -96,7 +96,7 @@ Qed.
 Theorem step_inv s o s' x : Inv s -> op_call_index o < ncalls s -> cstep s o = (s', x) ->
   Inv s' /\ ncalls s' = ncalls s.
 Proof.
-  intros I Hk H. destruct o as [k ow mo up|k|k|k]; simpl in Hk, H.
+  intros I Hk H. destruct o as [k ow mo up|k|k|k|k]; simpl in Hk, H.
   - destruct (c_fresh (get_call s k)) eqn:Fr; simpl in H; [|inversion H; subst; auto].
     set (calls1 := upd (cs_calls s) k (fun c => mkcall false (c_owns c) (c_cont c))) in *.
     assert (H1 : forall j, c_owns (nth j calls1 new_call) = c_owns (nth j (cs_calls s) new_call)).
@@ -153,6 +153,19 @@ Proof.
     + apply (inv_count_busy s I).
     + intros j Hj. rewrite H1. apply (inv_requester s I j Hj).
   - destruct (c_cont (get_call s k)); [eapply do_recv_inv; eauto|]. inversion H; subst. auto.
+  - inversion H; subst. clear H. split; [|unfold ncalls; simpl; apply upd_length].
+    assert (H1 : forall j, c_owns (nth j (upd (cs_calls s) k (fun c => mkcall false (c_owns c) false)) new_call)
+                           = c_owns (nth j (cs_calls s) new_call)).
+    { intros j. destruct (Nat.eq_dec k j) as [->|Hne].
+      - rewrite nth_upd_same by exact Hk. reflexivity.
+      - rewrite nth_upd_other by exact Hne. reflexivity. }
+    constructor; unfold ncalls, owns, get_call in *; simpl; rewrite ?upd_length.
+    + intros E j Hj. rewrite H1. apply (inv_idle s I E j Hj).
+    + intros k1 k2 Hk1 Hk2. rewrite !H1. apply (inv_single s I); assumption.
+    + intros E. destruct (inv_busy s I E) as (j & Hj & Oj). exists j. split; [exact Hj|]. rewrite H1. exact Oj.
+    + apply (inv_count_idle s I).
+    + apply (inv_count_busy s I).
+    + intros j Hj. rewrite H1. apply (inv_requester s I j Hj).
 Qed.
 
 (* every reachable state, for any number of call objects, any reply stream and any interleaving
@@ -171,13 +184,14 @@ Qed.
 Theorem only_owner_reads s o s' x : cstep s o = (s', x) -> cs_inbox s' <> cs_inbox s ->
   owns s (op_call_index o).
 Proof.
-  unfold owns. destruct o as [k ow mo up|k|k|k]; simpl; intros H Hne.
+  unfold owns. destruct o as [k ow mo up|k|k|k|k]; simpl; intros H Hne.
   - destruct (c_fresh (get_call s k)); simpl in H; [|inversion H; subst; congruence].
     destruct (cs_idle s); simpl in H; [destruct ow|]; inversion H; subst; simpl in Hne; congruence.
   - unfold do_recv in H. destruct (c_owns (get_call s k)); [reflexivity|]. simpl in H. inversion H; subst. congruence.
   - inversion H; subst. simpl in Hne. congruence.
   - destruct (c_cont (get_call s k)); [|inversion H; subst; congruence].
     unfold do_recv in H. destruct (c_owns (get_call s k)); [reflexivity|]. simpl in H. inversion H; subst. congruence.
+  - inversion H; subst. simpl in Hne. congruence.
 Qed.
 
 (* ... and that call is the one that wrote the latest non-oneway request: it is reading the
@@ -299,3 +313,79 @@ Proof.
     destruct (crun s1 (repeat (ONext k) (S (S (length conts))))) as [s' outs]. destruct IH as (E1 & E2 & E3).
     subst outs. simpl. auto.
 Qed.
+
+(* ---- an iterator abandoned mid-stream ----
+   The call object that owns the stream goes out of scope while replies are outstanding (ODrop). Whatever the other
+   call objects do afterwards, in any order: nothing more is read from the connection, nothing is written to it, it
+   stays busy, and nobody is handed a reply. The replies of the abandoned stream reach no other call. *)
+Lemma idle_false_of_owner s k : Inv s -> k < ncalls s -> owns s k -> cs_idle s = false.
+Proof.
+  intros I Hk Ow. destruct (cs_idle s) eqn:E; [|reflexivity]. exfalso. exact (inv_idle s I E k Hk Ow).
+Qed.
+
+Lemma step_beside_owner s k o s' x : Inv s -> k < ncalls s -> owns s k ->
+  op_call_index o < ncalls s -> op_call_index o <> k -> cstep s o = (s', x) ->
+  cs_inbox s' = cs_inbox s /\ cs_sent s' = cs_sent s /\ owns s' k /\ (forall p, x <> ROk p).
+Proof.
+  intros I Hk Ow Hj Hne H. pose proof (idle_false_of_owner s k I Hk Ow) as Id.
+  assert (NotOwner : forall j, j < ncalls s -> j <> k -> c_owns (get_call s j) = false).
+  { intros j Hj' Hne'. destruct (c_owns (get_call s j)) eqn:E; [|reflexivity].
+    exfalso. apply Hne'. apply (inv_single s I j k Hj' Hk); [exact E | exact Ow]. }
+  assert (Keep : forall j f, j <> k -> owns (mkcs (upd (cs_calls s) j f) (cs_idle s) (cs_inbox s) (cs_sent s) (cs_finals s)) k).
+  { intros j f Hne'. unfold owns, get_call in *. simpl. rewrite nth_upd_other by exact Hne'. exact Ow. }
+  destruct o as [j ow mo up|j|j|j|j]; simpl in Hj, Hne, H.
+  - destruct (c_fresh (get_call s j)); simpl in H.
+    + rewrite Id in H. simpl in H. inversion H; subst. simpl. repeat split; try reflexivity.
+      * unfold owns, get_call in *. simpl. rewrite nth_upd_other by exact Hne. exact Ow.
+      * discriminate.
+    + inversion H; subst. repeat split; try reflexivity; [exact Ow | discriminate].
+  - unfold do_recv in H. rewrite (NotOwner j Hj Hne) in H. simpl in H. inversion H; subst.
+    repeat split; try reflexivity; [exact Ow | discriminate].
+  - inversion H; subst. simpl. repeat split; try reflexivity; [apply Keep; exact Hne | discriminate].
+  - destruct (c_cont (get_call s j)).
+    + unfold do_recv in H. rewrite (NotOwner j Hj Hne) in H. simpl in H. inversion H; subst.
+      repeat split; try reflexivity; [exact Ow | discriminate].
+    + inversion H; subst. repeat split; try reflexivity; [exact Ow | discriminate].
+  - inversion H; subst. simpl. repeat split; try reflexivity; [apply Keep; exact Hne | discriminate].
+Qed.
+
+Lemma run_beside_owner ops : forall s k, Inv s -> k < ncalls s -> owns s k ->
+  Forall (fun o => op_call_index o < ncalls s /\ op_call_index o <> k) ops ->
+  cs_inbox (fst (crun s ops)) = cs_inbox s /\ cs_sent (fst (crun s ops)) = cs_sent s /\
+  cs_idle (fst (crun s ops)) = false /\ Forall (fun x => forall p, x <> ROk p) (snd (crun s ops)).
+Proof.
+  induction ops as [|o ops IH]; intros s k I Hk Ow F.
+  - simpl. repeat split; auto. exact (idle_false_of_owner s k I Hk Ow).
+  - inversion F as [|? ? [Ho Hne] Fr]; subst. simpl.
+    destruct (cstep s o) as [s1 x] eqn:St.
+    destruct (step_inv _ _ _ _ I Ho St) as [I1 N1].
+    destruct (step_beside_owner _ _ _ _ _ I Hk Ow Ho Hne St) as (E1 & E2 & Ow1 & Nx).
+    assert (Hk1 : k < ncalls s1) by (rewrite N1; exact Hk).
+    assert (Fr1 : Forall (fun o => op_call_index o < ncalls s1 /\ op_call_index o <> k) ops) by (rewrite N1; exact Fr).
+    specialize (IH s1 k I1 Hk1 Ow1 Fr1). destruct (crun s1 ops) as [s2 xs]. simpl in *.
+    destruct IH as (A & B & C & D). repeat split; try congruence. constructor; assumption.
+Qed.
+
+Theorem abandoned_stream_reaches_nobody ops s k : Inv s -> k < ncalls s -> owns s k ->
+  Forall (fun o => op_call_index o < ncalls s /\ op_call_index o <> k) ops ->
+  let s1 := fst (cstep s (ODrop k)) in
+  cs_inbox (fst (crun s1 ops)) = cs_inbox s /\ cs_sent (fst (crun s1 ops)) = cs_sent s /\
+  cs_idle (fst (crun s1 ops)) = false /\ Forall (fun x => forall p, x <> ROk p) (snd (crun s1 ops)).
+Proof.
+  intros I Hk Ow F s1.
+  assert (St : cstep s (ODrop k) = (s1, RUnit)) by reflexivity.
+  destruct (step_inv s (ODrop k) s1 RUnit I Hk St) as [I1 N1].
+  assert (Ow1 : owns s1 k).
+  { unfold s1, owns, get_call in *. simpl. rewrite nth_upd_same by exact Hk. simpl. exact Ow. }
+  assert (F1 : Forall (fun o => op_call_index o < ncalls s1 /\ op_call_index o <> k) ops) by (rewrite N1; exact F).
+  assert (Hk1 : k < ncalls s1) by (rewrite N1; exact Hk).
+  exact (run_beside_owner ops s1 k I1 Hk1 Ow1 F1).
+Qed.
+
+(* the premises are met by: call 0 sends a `more` call, reads one continuing reply, is dropped; call 1 then tries *)
+Example abandoned_stream_example :
+  let y c := FReply (mkreply (Some c) None (Some (JObj []))) in
+  snd (crun (cs_init 2 [y true; y true; y false])
+            (op_more 0 ++ [ONext 0; ODrop 0] ++ op_call 1)) =
+  [RUnit; RUnit; ROk (JObj []); RUnit; RErr EBusy; RErr EOldReply].
+Proof. vm_compute. reflexivity. Qed.
